@@ -37,6 +37,10 @@ pub fn gen_library(r: &mut Rng, big: bool) -> Vec<(String, String)> {
                         let target = if r.chance(1, 8) { "missing".to_string() } else { r.pick(&keys[..]).clone() };
                         let link = crate::oracle::md::rel_url(&target, &dir);
                         let link = if link.is_empty() { target.clone() } else { link };
+                        // blocks of other kinds before the reference, in the same section
+                        if r.chance(1, 3) {
+                            text.push_str(*r.pick(&["| a |\n|---|\n| b |\n\n", "***\n\n", "```\ncode\n```\n\n", "> quoted\n\n", "- plain item\n\n"][..]));
+                        }
                         text.push_str(&format!("[ref]({})\n\n", link));
                     }
                     2 => text.push_str(&format!("para {} with [inline]({}) link\n\n", i, r.pick(&keys[..]))),
